@@ -112,36 +112,94 @@ Definition sp_string (wide : bool) (e : endian) (b : bytes) (pos : N) : option (
   | None => None
   end.
 
-(* skip one value of type [s] (variants inside ignored fields are not followed: no constraint is derived then) *)
-Fixpoint sp_skip (s : sig) (e : endian) (b : bytes) (pos : N) : option N :=
+(* one value of type [s], fully validated as the specification marshals it (booleans 0/1, zero padding, NUL-terminated
+   UTF-8 strings, valid object paths and signatures, array contents, nesting limits 32 arrays / 32 structures / 64 in
+   total).  Variants and file descriptors inside an ignored field are not followed: no constraint is derived then. *)
+Definition sp_inc (which : N) (d : depths) : option depths :=
+  let d' := match which with
+            | 0 => {| d_struct := d_struct d + 1; d_array := d_array d; d_variant := d_variant d |}
+            | _ => {| d_struct := d_struct d; d_array := d_array d + 1; d_variant := d_variant d |}
+            end in
+  if (d_struct d' <=? 32) && (d_array d' <=? 32) && (d_struct d' + d_array d' + d_variant d' <=? 64) then Some d' else None.
+
+Fixpoint sp_value (s : sig) (d : depths) (e : endian) (b : bytes) (pos : N) {struct s} : option N :=
   match s with
   | SU8 => option_map snd (sp_take b pos 1)
+  | SBool => match sp_u32 e b pos with Some (n, p) => if n <=? 1 then Some p else None | None => None end
   | SI16 | SU16 => option_map snd (sp_fixed b pos 2)
-  | SBool | SI32 | SU32 | SFd => option_map snd (sp_fixed b pos 4)
+  | SI32 | SU32 => option_map snd (sp_fixed b pos 4)
   | SI64 | SU64 | SF64 => option_map snd (sp_fixed b pos 8)
-  | SStr | SObjPath => option_map snd (sp_string true e b pos)
-  | SSig => option_map snd (sp_string false e b pos)
+  | SStr => option_map snd (sp_string true e b pos)
+  | SObjPath => match sp_string true e b pos with Some (s', p) => if spec_object_path s' then Some p else None | None => None end
+  | SSig => match sp_string false e b pos with
+            | Some (s', p) => match parse_sig s' with Some _ => Some p | None => None end
+            | None => None
+            end
   | SArray c =>
-      match sp_u32 e b pos with
-      | Some (n, p) => match sp_align b p (align_dbus c) with Some p1 => option_map snd (sp_take b p1 n) | None => None end
-      | None => None
+      match sp_inc 1 d, sp_u32 e b pos with
+      | Some d', Some (n, p) =>
+          match sp_align b p (align_dbus c) with
+          | Some start =>
+              let endp := start + n in
+              (fix loop (k : nat) (q : N) {struct k} : option N :=
+                 if q =? endp then Some q
+                 else match k with
+                      | O => None
+                      | S k' =>
+                          match sp_align b q (align_dbus c) with
+                          | Some q1 =>
+                              match sp_value c d' e b q1 with
+                              | Some q2 => if q2 <=? endp then loop k' q2 else None
+                              | None => None
+                              end
+                          | None => None
+                          end
+                      end) (S (length b)) start
+          | None => None
+          end
+      | _, _ => None
       end
-  | SDict _ _ =>
-      match sp_u32 e b pos with
-      | Some (n, p) => match sp_align b p 8 with Some p1 => option_map snd (sp_take b p1 n) | None => None end
-      | None => None
+  | SDict kt vt =>
+      match sp_inc 1 d, sp_u32 e b pos with
+      | Some d', Some (n, p) =>
+          match sp_align b p 8 with
+          | Some start =>
+              let endp := start + n in
+              (fix loop (k : nat) (q : N) {struct k} : option N :=
+                 if q =? endp then Some q
+                 else match k with
+                      | O => None
+                      | S k' =>
+                          match sp_align b q 8 with
+                          | Some q1 =>
+                              match sp_value kt d' e b q1 with
+                              | Some q2 =>
+                                  if q2 <=? endp then
+                                    match sp_value vt d' e b q2 with
+                                    | Some q3 => if q3 <=? endp then loop k' q3 else None
+                                    | None => None
+                                    end
+                                  else None
+                              | None => None
+                              end
+                          | None => None
+                          end
+                      end) (S (length b)) start
+          | None => None
+          end
+      | _, _ => None
       end
   | SStruct fs =>
-      match sp_align b pos 8 with
-      | Some p =>
-          (fix go (l : list sig) (q : N) : option N :=
+      match sp_align b pos 8, sp_inc 0 d with
+      | Some p, Some d' =>
+          (fix go (l : list sig) (q : N) {struct l} : option N :=
              match l with
              | [] => Some q
-             | f :: r => match sp_skip f e b q with Some q' => go r q' | None => None end
+             | f :: r => match sp_value f d' e b q with Some q' => go r q' | None => None end
              end) fs p
-      | None => None
+      | _, _ => None
       end
-  | SVariant | SUnit | SMaybe _ => None
+  | SVariant | SFd | SUnit | SMaybe _ => None
   end.
 
 Record sfields := {
@@ -155,38 +213,38 @@ Definition is_none {A} (o : option A) : bool := match o with None => true | Some
 
 (* a known field: the type the specification prescribes for it, a value valid for it, at most once *)
 Definition sp_known (code : N) (vs : sig) (e : endian) (b : bytes) (pos : N) (a : sfields) : option (sfields * N) :=
-  let str v (ok : bytes -> bool) (isn : bool) (upd : bytes -> sfields) :=
-    match vs, sp_string true e b pos with
-    | v', Some (s, p) => if (lbeq (show v') (show v)) && ok s && isn then Some (upd s, p) else None
-    | _, None => None
+  let str (ok : bytes -> bool) (isn : bool) (upd : bytes -> sfields) :=
+    match sp_string true e b pos with
+    | Some (s, p) => if ok s && isn then Some (upd s, p) else None
+    | None => None
     end in
-  match code with
-  | 1 => str SObjPath spec_object_path (is_none (s_path a)) (fun s => {| s_path := Some s; s_iface := s_iface a; s_member := s_member a; s_errname := s_errname a; s_reply := s_reply a; s_dest := s_dest a; s_sender := s_sender a; s_sig := s_sig a; s_fds := s_fds a; s_unk := s_unk a |})
-  | 2 => str SStr spec_interface (is_none (s_iface a)) (fun s => {| s_path := s_path a; s_iface := Some s; s_member := s_member a; s_errname := s_errname a; s_reply := s_reply a; s_dest := s_dest a; s_sender := s_sender a; s_sig := s_sig a; s_fds := s_fds a; s_unk := s_unk a |})
-  | 3 => str SStr spec_member (is_none (s_member a)) (fun s => {| s_path := s_path a; s_iface := s_iface a; s_member := Some s; s_errname := s_errname a; s_reply := s_reply a; s_dest := s_dest a; s_sender := s_sender a; s_sig := s_sig a; s_fds := s_fds a; s_unk := s_unk a |})
-  | 4 => str SStr spec_interface (is_none (s_errname a)) (fun s => {| s_path := s_path a; s_iface := s_iface a; s_member := s_member a; s_errname := Some s; s_reply := s_reply a; s_dest := s_dest a; s_sender := s_sender a; s_sig := s_sig a; s_fds := s_fds a; s_unk := s_unk a |})
-  | 6 => str SStr spec_bus (is_none (s_dest a)) (fun s => {| s_path := s_path a; s_iface := s_iface a; s_member := s_member a; s_errname := s_errname a; s_reply := s_reply a; s_dest := Some s; s_sender := s_sender a; s_sig := s_sig a; s_fds := s_fds a; s_unk := s_unk a |})
-  | 7 => str SStr spec_unique (is_none (s_sender a)) (fun s => {| s_path := s_path a; s_iface := s_iface a; s_member := s_member a; s_errname := s_errname a; s_reply := s_reply a; s_dest := s_dest a; s_sender := Some s; s_sig := s_sig a; s_fds := s_fds a; s_unk := s_unk a |})
-  | 5 =>
-      match vs, sp_u32 e b pos with
-      | SU32, Some (n, p) => if negb (n =? 0) && is_none (s_reply a) then Some ({| s_path := s_path a; s_iface := s_iface a; s_member := s_member a; s_errname := s_errname a; s_reply := Some n; s_dest := s_dest a; s_sender := s_sender a; s_sig := s_sig a; s_fds := s_fds a; s_unk := s_unk a |}, p) else None
-      | _, _ => None
+  match code, vs with
+  | 1, SObjPath => str spec_object_path (is_none (s_path a)) (fun s => {| s_path := Some s; s_iface := s_iface a; s_member := s_member a; s_errname := s_errname a; s_reply := s_reply a; s_dest := s_dest a; s_sender := s_sender a; s_sig := s_sig a; s_fds := s_fds a; s_unk := s_unk a |})
+  | 2, SStr => str spec_interface (is_none (s_iface a)) (fun s => {| s_path := s_path a; s_iface := Some s; s_member := s_member a; s_errname := s_errname a; s_reply := s_reply a; s_dest := s_dest a; s_sender := s_sender a; s_sig := s_sig a; s_fds := s_fds a; s_unk := s_unk a |})
+  | 3, SStr => str spec_member (is_none (s_member a)) (fun s => {| s_path := s_path a; s_iface := s_iface a; s_member := Some s; s_errname := s_errname a; s_reply := s_reply a; s_dest := s_dest a; s_sender := s_sender a; s_sig := s_sig a; s_fds := s_fds a; s_unk := s_unk a |})
+  | 4, SStr => str spec_interface (is_none (s_errname a)) (fun s => {| s_path := s_path a; s_iface := s_iface a; s_member := s_member a; s_errname := Some s; s_reply := s_reply a; s_dest := s_dest a; s_sender := s_sender a; s_sig := s_sig a; s_fds := s_fds a; s_unk := s_unk a |})
+  | 6, SStr => str spec_bus (is_none (s_dest a)) (fun s => {| s_path := s_path a; s_iface := s_iface a; s_member := s_member a; s_errname := s_errname a; s_reply := s_reply a; s_dest := Some s; s_sender := s_sender a; s_sig := s_sig a; s_fds := s_fds a; s_unk := s_unk a |})
+  | 7, SStr => str spec_unique (is_none (s_sender a)) (fun s => {| s_path := s_path a; s_iface := s_iface a; s_member := s_member a; s_errname := s_errname a; s_reply := s_reply a; s_dest := s_dest a; s_sender := Some s; s_sig := s_sig a; s_fds := s_fds a; s_unk := s_unk a |})
+  | 5, SU32 =>
+      match sp_u32 e b pos with
+      | Some (n, p) => if negb (n =? 0) && is_none (s_reply a) then Some ({| s_path := s_path a; s_iface := s_iface a; s_member := s_member a; s_errname := s_errname a; s_reply := Some n; s_dest := s_dest a; s_sender := s_sender a; s_sig := s_sig a; s_fds := s_fds a; s_unk := s_unk a |}, p) else None
+      | None => None
       end
-  | 9 =>
-      match vs, sp_u32 e b pos with
-      | SU32, Some (n, p) => if is_none (s_fds a) then Some ({| s_path := s_path a; s_iface := s_iface a; s_member := s_member a; s_errname := s_errname a; s_reply := s_reply a; s_dest := s_dest a; s_sender := s_sender a; s_sig := s_sig a; s_fds := Some n; s_unk := s_unk a |}, p) else None
-      | _, _ => None
+  | 9, SU32 =>
+      match sp_u32 e b pos with
+      | Some (n, p) => if is_none (s_fds a) then Some ({| s_path := s_path a; s_iface := s_iface a; s_member := s_member a; s_errname := s_errname a; s_reply := s_reply a; s_dest := s_dest a; s_sender := s_sender a; s_sig := s_sig a; s_fds := Some n; s_unk := s_unk a |}, p) else None
+      | None => None
       end
-  | 8 =>
-      match vs, sp_string false e b pos with
-      | SSig, Some (s, p) =>
+  | 8, SSig =>
+      match sp_string false e b pos with
+      | Some (s, p) =>
           match parse_sig s with
           | Some g => if is_none (s_sig a) then Some ({| s_path := s_path a; s_iface := s_iface a; s_member := s_member a; s_errname := s_errname a; s_reply := s_reply a; s_dest := s_dest a; s_sender := s_sender a; s_sig := Some g; s_fds := s_fds a; s_unk := s_unk a |}, p) else None
           | None => None
           end
-      | _, _ => None
+      | None => None
       end
-  | _ => None
+  | _, _ => None
   end.
 
 Fixpoint sp_fields (fuel : nat) (e : endian) (b : bytes) (endp pos : N) (a : sfields) : option sfields :=
@@ -214,7 +272,7 @@ Fixpoint sp_fields (fuel : nat) (e : endian) (b : bytes) (endp pos : N) (a : sfi
                                 | None => None
                                 end
                               else                           (* unknown header field: ignored *)
-                                match sp_skip vs e b p2 with
+                                match sp_value vs field_value_depths e b p2 with
                                 | Some p3 =>
                                     if p3 <=? endp
                                     then sp_fields f e b endp p3
@@ -246,7 +304,7 @@ Definition spec_parse (b : bytes) : option smsg :=
       | Some e =>
           match sp_byte b 1, sp_byte b 2, sp_byte b 3, sp_u32 e b 4, sp_u32 e b 8, sp_u32 e b 12 with
           | Some (ty, _), Some (fl, _), Some (ver, _), Some (bl, _), Some (sn, _), Some (flen, p) =>
-              if (ver =? 1) && negb (sn =? 0) && negb (ty =? 0) then
+              if (ver =? 1) && negb (sn =? 0) && negb (ty =? 0) && (len b <=? max_message_size) then
                 match sp_fields (S (length b)) e b (p + flen) p sfields_empty with
                 | Some a =>
                     match sp_align b (p + flen) 8 with
